@@ -1,13 +1,28 @@
 #!/bin/sh
-# tools/seed_run.sh <seed-id> <prop...> : apply a seeded change to /repo, run the quick checks, restore /repo; prints one line per check
+# tools/seed_run.sh <seed-id> <prop...> : run quick checks against a seeded change.
+# Default: on a scratch worktree of /repo under /tmp (PURL_REPO), so that /repo itself is never touched and other runs are not disturbed.
+# With SEED_IN_PLACE=1: apply to /repo (git -C /repo apply), run, and restore it straight afterwards (git -C /repo checkout -- .).
 id="$1"; shift
 cd /verif
-git -C /repo apply /verif/seeded/$id/patch.diff || { echo "patch does not apply"; exit 3; }
+if [ -n "$SEED_IN_PLACE" ]; then
+  git -C /repo apply /verif/seeded/$id/patch.diff || { echo "patch does not apply"; exit 3; }
+else
+  wt=/tmp/seedwt_$id
+  git -C /repo worktree remove --force $wt 2>/dev/null
+  git -C /repo worktree add -q --detach $wt HEAD || exit 3
+  git -C $wt apply /verif/seeded/$id/patch.diff || { echo "patch does not apply"; git -C /repo worktree remove --force $wt; exit 3; }
+  export PURL_REPO=$wt VERIF_BUILD=/tmp/seedbuild_$id
+fi
 for p in "$@"; do
   out=$(timeout 1500 ./check $p --no-evidence 2>&1)
   rc=$?
   echo "$id $p exit=$rc $(echo "$out" | grep -c '^VIOLATION') violation lines; $(echo "$out" | grep -E '^(VIOLATION|INCONCLUSIVE)' | head -2 | tr '\n' ' ' | cut -c1-300)"
   echo "$out" | grep -A1 '^VIOLATION' | head -4 | sed 's/^/      /'
 done
-git -C /repo checkout -- .
-git -C /repo status --short
+if [ -n "$SEED_IN_PLACE" ]; then
+  git -C /repo checkout -- .
+  git -C /repo status --short
+else
+  git -C /repo worktree remove --force $wt
+  rm -rf /tmp/seedbuild_$id
+fi
